@@ -216,6 +216,8 @@ def run(ctx):
     c01.p14(ctx, R)
     from .c13 import h2
     h2(ctx, R)
+    # the names and tags of a registered command are tokens like any other (letters, digits, underscore): the token rules (L1-L4 of C01)
+    c01.lexer_rules(ctx, R)
     # ---- G10 ----------------------------------------------------------------------
     ctx.rule("G10", "a command is closed by `;` only when every required argument of its definition was given")
     from sa.util import fact_call
